@@ -487,7 +487,7 @@ theorem rule1_closed_form (w : What) (needEq : Bool) (r step : Int) :
       else some { rule := 1, what := some w, step := r, upto := 0 } := by
   by_cases hr : r > step
   · simp [evalReductionRules, rulesLoop, rulesLevel, reductionRules, applyStep, reduceMatrix, reduceOverTime, reduceAgg,
-      reduceSubquery, reduceWhat, List.range, List.range.loop, hr]
+      reduceSubquery, List.range, List.range.loop, hr]
   · by_cases hne : needEq = true ∧ ¬ r = step
     · simp [evalReductionRules, rulesLoop, rulesLevel, reductionRules, applyStep, reduceMatrix, reduceOverTime, reduceAgg,
         reduceSubquery, reduceWhat, List.range, List.range.loop, hr, hne]
